@@ -8,7 +8,7 @@ gives when barrier() is a no-op and bvalue = value) is computed up front; it is 
 
 Every worker thread runs the REAL `jug.subcommands.execute.ExecuteCommand.run` (the reload loop) on its own jugfile
 module; the jugfile calls `build_here`, which executes the statements against the CURRENT store with the REAL
-`jug.barrier.barrier()` / `bvalue()`.  Loading the jugfile is ONE scheduling step: its can_load / load calls are logged
+`barrier_mod.barrier()` / `bvalue()`.  Loading the jugfile is ONE scheduling step: its can_load / load calls are logged
 as events of that worker but do not yield.  To run several `jug execute` "processes" as threads of one interpreter,
 the process globals they use are made thread-local for the duration of a run (in the harness, not in /repo):
 `jug.task.alltasks`, the hook table of `jug.hooks.register`; `signal.signal` is ignored outside the main thread;
@@ -29,7 +29,8 @@ from . import exectrace as X
 
 import jug
 import jug.task
-import jug.barrier
+import importlib
+barrier_mod = importlib.import_module('jug.barrier')      # `jug.barrier` the attribute is the function
 import jug.options
 import jug.hooks.register
 import jug.subcommands.execute as execute_mod
@@ -37,7 +38,9 @@ from jug import Task
 
 BIMPORTS = X.IMPORTS
 _tl = threading.local()
-_current = {}          # 'rt': the active runtime, 'bspec': its program
+if not hasattr(X, '_eb_current'):
+    X._eb_current = {}
+_current = X._eb_current          # 'rt': the active runtime, 'bspec': its program (shared even if this module is imported twice)
 
 
 # ================================================================ thread-local views of process globals
@@ -162,6 +165,24 @@ def process_globals_per_thread():
 
 
 # ================================================================ programs
+def subst_bvals(a, bvals):
+    """replace ['bval', b] by the plain value the b-th bvalue() returned"""
+    k = a[0]
+    if k == 'bval':
+        return ['pyval', bvals[a[1]]]
+    if k in ('list', 'tuple'):
+        return [k, [subst_bvals(x, bvals) for x in a[1]]]
+    if k == 'dict':
+        return [k, [[kk, subst_bvals(x, bvals)] for kk, x in a[1]]]
+    if k == 'getitem':
+        return [k, subst_bvals(a[1], bvals), subst_bvals(a[2], bvals)]
+    if k == 'fun':
+        return [k, subst_bvals(a[1], bvals), a[2]]
+    if k in ('custom', 'identity'):
+        return [k, subst_bvals(a[1], bvals)]
+    return a
+
+
 def unfold(bspec):
     """-> (plain program spec of the full sequential unfolding, extra: {task idx: sorted [task idx]}, bvalue values)"""
     fns = bspec['fns']
@@ -171,20 +192,7 @@ def unfold(bspec):
     waits = []                 # argument tasks of the bvalues so far
 
     def subst(a):
-        k = a[0]
-        if k == 'bval':
-            return ['pyval', bvals[a[1]]]
-        if k in ('list', 'tuple'):
-            return [k, [subst(x) for x in a[1]]]
-        if k == 'dict':
-            return [k, [[kk, subst(x)] for kk, x in a[1]]]
-        if k == 'getitem':
-            return [k, subst(a[1]), subst(a[2])]
-        if k in ('fun',):
-            return [k, subst(a[1]), a[2]]
-        if k in ('custom', 'identity'):
-            return [k, subst(a[1])]
-        return a
+        return subst_bvals(a, bvals)
 
     def val_of(j):
         return vals[j]
@@ -300,52 +308,17 @@ def build_here(ns):
     w.noyield = True
     try:
         fns = {int(k): X.make_fn(int(k), kind) for k, kind in bspec['fns'].items()}
-        shell = X.Built.__new__(X.Built)
+        shell = X.Built.__new__(X.Built)      # only its obj() method and task list are used
         shell.tasks = []
         bvals = []
 
-        def obj(a):
-            if a[0] == 'bval':
-                return bvals[a[1]]
-            return X.Built.obj(shell, a)
-        shell_obj = shell.obj
-
-        class _B(X.Built):
-            pass
-        # Built.obj recurses through self.obj: give the shell an obj that knows 'bval'
         def shell_dispatch(a):
-            k = a[0]
-            if k == 'bval':
-                return bvals[a[1]]
-            if k == 'list':
-                return [shell_dispatch(x) for x in a[1]]
-            if k == 'tuple':
-                return tuple(shell_dispatch(x) for x in a[1])
-            if k == 'dict':
-                return {kk: shell_dispatch(x) for kk, x in a[1]}
-            if k == 'getitem':
-                return shell_dispatch(a[1])[shell_dispatch(a[2])]
-            if k == 'custom':
-                return jug.utils.CustomHash(shell_dispatch(a[1]), X._custom_hash)
-            if k == 'identity':
-                return jug.utils.identity(shell_dispatch(a[1]))
-            if k == 'fun':
-                base = shell_dispatch(a[1])
-                return X.Built.obj(shell, ['fun', ['pyobj', base], a[2]]) if False else _fun(base, a[2])
-            return X.Built.obj(shell, a)
-
-        def _fun(base, f):
-            import functools
-            from jug import Tasklet
-            from jug.task import _get_check
-            if f[0] == 'wrap':
-                return Tasklet(base, X.wrap1)
-            return Tasklet(base, functools.partial(_get_check, i=f[1], n=f[2]))
+            return shell.obj(subst_bvals(a, bvals))
         for st in bspec['stmts']:
             if st[0] == 'barrier':
-                jug.barrier.barrier()
+                barrier_mod.barrier()
             elif st[0] == 'bvalue':
-                bvals.append(jug.barrier.bvalue(shell.tasks[st[1]]))
+                bvals.append(barrier_mod.bvalue(shell.tasks[st[1]]))
             else:
                 ts = st[1]
                 args = [shell_dispatch(a) for a in ts['args']]
@@ -489,21 +462,21 @@ def oracle_barrier(sc, res):
         out += X.oracle_complete(res)
         out += X.oracle_c02(tr, clean_complete=True, ntasks=res.ntasks, prefilled=set(t - 1 for t in pre))
     out += X.oracle_sound(res)
-    # a worker that left with work undone saw something missing after its last action
+    # a worker that left with work undone saw something missing since its last own dump (the reload loop gives up after
+    # passes in which IT executed nothing; "since its last action" is too strong for the real loop: the re-check after a failed
+    # lock() may already see the result, and the barrier is looked at before the pass's lock attempts)
     stored = set(pre)
-    last_act, missing_seen = {}, {}
+    missing_seen = {}
     for i, e in enumerate(tr):
         if e[0] == 'EDump':
             stored.add(e[2])
-        if len(e) > 1 and e[0] not in ('ECanLoad', 'ELoad', 'EExit'):
-            last_act[e[1]] = i
             missing_seen[e[1]] = []
         if e[0] == 'ECanLoad' and not e[3]:
             missing_seen.setdefault(e[1], []).append(e[2])
         if e[0] == 'EExit' and e[2] == 0:
             undone = [t for t in range(1, res.ntasks + 1) if t not in stored]
             if undone and not missing_seen.get(e[1]):
-                out.append({'what': 'a worker gave up with tasks undone without having seen anything missing since its last action',
+                out.append({'what': 'a worker gave up with tasks undone without having seen anything missing since its last own dump',
                             'worker': e[1], 'undone': undone, 'at': i})
     for (w, code, dead, intr) in res.workers:
         if not dead and not intr and code != 0:
